@@ -1272,6 +1272,30 @@ func coverRule(P *Program, r *Result, rule string, fa *FA, fn *ssa.Function, buf
 			}
 		}
 	}
+	// calls that were handed the buffer from some offset on and report how far they wrote
+	type wcall struct {
+		off *Lin
+		ret *Lin
+		in  ssa.Instruction
+	}
+	var wcalls []wcall
+	for _, c := range callsIn(fn) {
+		cc, ok := c.(*ssa.Call)
+		if !ok || !isInteger(cc.Type()) {
+			continue
+		}
+		if _, isB := cc.Common().Value.(*ssa.Builtin); isB {
+			continue
+		}
+		for _, a := range cc.Common().Args {
+			if !isByteSlice(a.Type()) {
+				continue
+			}
+			if d := fa.sliceDesc(a); d != nil && d.Root == ssa.Value(buf) && d.Off != nil {
+				wcalls = append(wcalls, wcall{d.Off, fa.expand(cc), cc})
+			}
+		}
+	}
 	seen := map[ssa.Value]bool{}
 	n := 0
 	var walk func(v ssa.Value)
@@ -1289,61 +1313,80 @@ func coverRule(P *Program, r *Result, rule string, fa *FA, fn *ssa.Function, buf
 			if x.Op != token.ADD {
 				return
 			}
-			base, amt := x.X, x.Y
-			if _, isCall := asCallValue(base); isCall {
-				base, amt = amt, base
-			} else if _, isC := base.(*ssa.Const); isC {
-				if _, alsoC := amt.(*ssa.Const); !alsoC {
-					base, amt = amt, base
+			// the whole sum: one operand is the cursor as it was, the rest is what was added to it
+			var leaves []ssa.Value
+			var flat func(y ssa.Value)
+			flat = func(y ssa.Value) {
+				if bo, ok := y.(*ssa.BinOp); ok && bo.Op == token.ADD {
+					flat(bo.X)
+					flat(bo.Y)
+					return
 				}
+				leaves = append(leaves, y)
+			}
+			flat(x)
+			var base ssa.Value
+			for _, l := range leaves {
+				if _, isC := l.(*ssa.Const); isC {
+					continue
+				}
+				if _, isCall := asCallValue(l); isCall {
+					continue
+				}
+				if base != nil {
+					base = nil
+					break
+				}
+				base = l
 			}
 			n++
 			pos := P.pos(instrPos(x))
-			bl := fa.expand(base)
-			if k, isC := constInt(amt); isC {
-				if k > 0 {
-					covered := make([]bool, k)
-					for _, w := range writes {
-						if !instrDominates(w.in, x) {
-							continue
-						}
-						d := w.off.sub(bl)
-						if j, isK := d.constVal(); isK && j.IsInt64() {
-							for q := j.Int64(); q < j.Int64()+w.w; q++ {
-								if q >= 0 && q < k {
-									covered[q] = true
-								}
-							}
-						}
-					}
-					all, miss := true, int64(0)
-					for q, c := range covered {
-						if !c {
-							all, miss = false, int64(q)
-							break
-						}
-					}
-					detail := ""
-					if !all {
-						detail = fmt.Sprintf("byte %d of the %d counted here is never stored", miss, k)
-					}
-					r.add(rule, shortName(fn), "cover", "bytes the cursor moves over by a constant are bytes stored just before", pos, all, detail)
-				}
-			} else {
-				okCall := false
-				if c, isCall := asCallValue(amt); isCall {
-					for _, a := range c.Common().Args {
-						if !isByteSlice(a.Type()) {
-							continue
-						}
-						if d := fa.sliceDesc(a); d != nil && d.Root == ssa.Value(buf) && d.Off != nil && d.Off.equal(bl) {
-							okCall = true
-						}
-					}
-				}
-				r.add(rule, shortName(fn), "cover", "an amount added to the cursor is what a call reports that was given the buffer at that cursor", pos, okCall, "")
+			bl := linConst(0)
+			if base != nil {
+				bl = fa.expand(base)
 			}
-			walk(base)
+			delta := fa.expand(x).sub(bl)
+			at := linConst(0)
+			okCover, detail := false, ""
+			for step := 0; step < 64; step++ {
+				if at.equal(delta) {
+					okCover = true
+					break
+				}
+				moved := false
+				for _, w := range writes {
+					if !instrDominates(w.in, x) {
+						continue
+					}
+					d := at.sub(w.off.sub(bl))
+					if j, isK := d.constVal(); isK && j.IsInt64() && j.Int64() >= 0 && j.Int64() < w.w {
+						at = at.addConst(w.w - j.Int64())
+						moved = true
+						break
+					}
+				}
+				if moved {
+					continue
+				}
+				for _, c := range wcalls {
+					if !instrDominates(c.in, x) {
+						continue
+					}
+					if c.off.sub(bl).equal(at) {
+						at = at.add(c.ret)
+						moved = true
+						break
+					}
+				}
+				if !moved {
+					detail = "nothing is stored at cursor + " + fa.A.linString(at) + " although " + fa.A.linString(delta) + " bytes are counted"
+					break
+				}
+			}
+			r.add(rule, shortName(fn), "cover", "every byte the cursor moves over was stored, or written by a call handed the buffer at that position", pos, okCover, detail)
+			if base != nil {
+				walk(base)
+			}
 		}
 	}
 	for _, ret := range returnsOf(fn) {
